@@ -408,7 +408,7 @@ def mk_population(rnd):
 
 # ---- round 2: the C17 key / string alphabet inside modified attribute values, at every depth --------------------------
 # keys: EMPTY, dots, quotes, backslash, line breaks, NUL, tab, leading digit, UTF-8, writer keywords (written @kw), text that
-# looks like a statement / comment / heredoc / index, and the two lexer-only keywords (finding modattr-keyword-key)
+# looks like a statement / comment / heredoc / index, and `in` / `debugger` (lexer keywords the writer did not know before fix 918cf68: finding modattr-keyword-key, fixed - they must survive now)
 TKEYS = ['', '', 'a', 'b', 'k1', 'a.b', '..', '.', 'q"t', 'back\\slash', 'nl\nx', 'cr\rx', 'a\0b', '\0', 'tab\t', '1abc', '0', '-', 'ü', '漢字',
          'sp ace', 'null', 'true', 'object', 'var', 'import', 'this', 'x = 1\nz', '@x', '}', '{', ']', '//c', '/*c', '#c', '}}}', 'a]["b', 'A_9', '_']
 KWKEYS = ['in', 'debugger']
@@ -570,7 +570,7 @@ def mk_text_special():
     S('dma-text', 'ps_mnew vars=M(61:D1)', 'ps_mod path=%s val=A(A(),M(),M(-:A(M(-:S-))))' % hx('vars.x'), 'ps_dma')
     S('dma-text', 'ps_mnew', 'ps_mod path=%s val=M(-:D1,%s:M())' % (hx('vars'), hx('b')), 'ps_restart')
     S('dma-text', 'ps_mnew n=2 vars=M(61:D1)', 'ps_mod obj=0 path=%s val=S%s' % (hx('vars.a'), hx('ok')), 'ps_mod obj=1 path=%s val=M(-:D1)' % hx('vars.x'), 'ps_dma')
-    # lexer-only keywords as keys: finding modattr-keyword-key (one such line takes the other object's block with it)
+    # `in` / `debugger` as keys (finding modattr-keyword-key, fixed by 918cf68): must survive; before the fix one such line took the other object's block with it
     S('dma-text-keyword', 'ps_mnew vars=M(61:D1)', 'ps_mod path=%s val=M(%s:D1)' % (hx('vars.x'), hx('in')), 'ps_dma')
     S('dma-text-keyword', 'ps_mnew vars=M(61:D1)', 'ps_mod path=%s val=A(M(61:M(%s:N)))' % (hx('vars.x'), hx('debugger')), 'ps_restart')
     S('dma-text-keyword', 'ps_mnew n=2 vars=M(61:D1)', 'ps_mod obj=0 path=%s val=S%s' % (hx('vars.a'), hx('ok')), 'ps_mod obj=1 path=%s val=M(%s:D1)' % (hx('vars.x'), hx('in')), 'ps_dma')
